@@ -20,7 +20,7 @@ use std::time::{Duration, SystemTime, UNIX_EPOCH};
 use vh::*;
 
 const HEADER: &str = "From SV Require Import Lib.Base Model.Postcard Gen.Schemas Model.Wire.\nLocal Open Scope N_scope.";
-const PREFIX_CAP: usize = 3072;
+const PREFIX_CAP: usize = 2048;
 
 /// Coq list of bytes, written in chunks: the list notation parses super-linearly in its length
 fn cb(b: &[u8]) -> String {
@@ -463,13 +463,16 @@ fn main() {
     let mut rng = Rng::new(args.seed);
     let mut sum = Summary::default();
     sum.rule = "per decoder: valid messages of every kind from the real types, byte-level mutants of them at every position class (edge bytes on tags/length prefixes/bools, +-1, continuation-bit flips, truncation, overlong varints, maximal varints, insert/delete/append), random bytes (mostly short, up to 128 KiB), hand-made Duration/SystemTime overflow edges; parse_protocol_message with timestamps at the window edges +-1 s and claimed senders different from the connection id; DHT manager and core engine request sequences with values 511/512/513 bytes, message sizes 65535/65536/65537, find-node counts 19/20/21/usize::MAX; records of 511/512/513 bytes. Non-trivial = accepted by the real decoder or rejected after the first 2 bytes; distinct = different input bytes".into();
-    let mut w = CaseWriter::new(&args.out, "cases_c05", HEADER, "wcase", "check_case", "prop_case", 150);
-    let scale = if args.thorough() { 12 } else { 1 };
+    let mut w = CaseWriter::new(&args.out, "cases_c05", HEADER, "wcase", "check_case", "prop_case", 120);
+    // request sequences are much heavier per case (long frames): small shards so that they evaluate in parallel
+    let mut wd = CaseWriter::new(&args.out, "cases_c05dht", HEADER, "wcase", "check_case", "prop_case", 5);
+    let mut wc = CaseWriter::new(&args.out, "cases_c05core", HEADER, "wcase", "check_case", "prop_case", 12);
+    let scale = if args.thorough() { 6 } else { 1 };
     let mut id = 0u64;
     let mut seen = std::collections::HashSet::new();
 
     // ---------------------------------------------------------------- 1. differential decoding, every root type
-    let n_dec = 1320 * scale;
+    let n_dec = 1080 * scale;
     for i in 0..n_dec {
         let root = ROOTS[(i % ROOTS.len() as u64) as usize];
         let (blob, kind): (Blob, &str) = match rng.below(20) {
@@ -512,7 +515,7 @@ fn main() {
     }
 
     // ---------------------------------------------------------------- 2. parse_protocol_message: window and source
-    let n_ppm = 400 * scale;
+    let n_ppm = 320 * scale;
     for _ in 0..n_ppm {
         let src = match rng.below(4) { 0 => "transport-peer".to_string(), 1 => "".to_string(), 2 => "p\u{e9}er-\u{20ac}".to_string(), _ => hex::encode(rng.bytes(32)) };
         let from = match rng.below(3) { 0 => src.clone(), 1 => "spoofed-identity".to_string(), _ => rstr(&mut rng) };
@@ -563,7 +566,7 @@ fn main() {
     }
 
     // ---------------------------------------------------------------- 4. DhtNetworkManager::handle_dht_message on a node without peers
-    let n_dht = 40 * scale;
+    let n_dht = 30 * scale;
     let mut dht_ok = 0;
     for s in 0..n_dht {
         let Some(mgr) = rt.block_on(new_manager(args.seed * 100000 + s)) else { sum.count("dht:manager-unavailable"); continue };
@@ -584,14 +587,14 @@ fn main() {
             frames.push((blob, d));
         }
         if broken { id += 1; continue; }
-        w.push(id, format!("KDht {}", coq_list(frames.iter().map(|(b, d)| format!("({}, {})", b.coq(), coq_dres(d))))));
+        wd.push(id, format!("KDht {}", coq_list(frames.iter().map(|(b, d)| format!("({}, {})", b.coq(), coq_dres(d))))));
         sum.case(id, json!({"kind": "handle_dht_message sequence", "frames": descr}));
         sum.distinct_nontrivial += 1; sum.evaluations += 1; sum.add("dht:frames", frames.len() as u64); id += 1;
     }
     if dht_ok == 0 { sum.violation(id, "could not construct a DhtNetworkManager (transport unavailable): handle_dht_message not exercised", &[], json!(null)); }
 
     // ---------------------------------------------------------------- 5. DhtCoreEngine::handle_request
-    for _ in 0..(60 * scale) {
+    for _ in 0..(40 * scale) {
         let avail = *rng.pick(&[0usize, 5, 19, 20, 21, 30, 45]);
         let Some(eng) = rt.block_on(new_core(avail)) else { sum.violation(id, "could not construct a DhtCoreEngine", &[], json!(avail)); break };
         let mut keys = vec![]; let mut frames = vec![]; let mut descr = vec![]; let mut broken = false;
@@ -609,7 +612,7 @@ fn main() {
             frames.push((blob, c));
         }
         if broken { id += 1; continue; }
-        w.push(id, format!("KCore {} {}", avail, coq_list(frames.iter().map(|(b, c)| format!("({}, {})", b.coq(), coq_cres(c))))));
+        wc.push(id, format!("KCore {} {}", avail, coq_list(frames.iter().map(|(b, c)| format!("({}, {})", b.coq(), coq_cres(c))))));
         sum.case(id, json!({"kind": "handle_request sequence", "routing_table_peers": avail, "frames": descr}));
         sum.distinct_nontrivial += 1; sum.evaluations += 1; sum.add("core:frames", frames.len() as u64); id += 1;
     }
@@ -669,6 +672,6 @@ fn main() {
         sum.evaluations += 1;
     }
 
-    w.flush();
+    w.flush(); wd.flush(); wc.flush();
     sum.write(&args.out);
 }
